@@ -59,7 +59,7 @@ func (Engine) Describe(prop string) core.Description {
 			"filter values are of the Go type of the field (the property says well-typed); 'in' is generated for string-valued fields, 'has' for to-many relationships",
 			"sort and filter semantics are sampled, not enumerated; what simulation contributes is the store states the queries run on and the untouched-input clause",
 		}
-		d.Probes = []string{"range-on-softcollection", "range-on-resources-of-wrappers", "range-on-wrappercollection", "sort-by-uint64", "sort-by-bytes", "sort-nil-present", "sort-ties-without-id", "filter-bytes-order", "filter-nil-operand", "filter-unknown-op", "filter-and-or", "page-beyond-end", "size-zero", "ids-subset", "pages-partition-checked", "permuted-order-checked", "earlier-page-reread", "range-over-earlier-page"}
+		d.Probes = []string{"range-on-softcollection", "range-on-resources-of-wrappers", "range-on-wrappercollection", "sort-by-uint64", "sort-by-bytes", "sort-nil-present", "sort-ties-without-id", "filter-bytes-order", "filter-nil-operand", "filter-unknown-op", "filter-and-or", "page-beyond-end", "size-zero", "ids-subset", "pages-partition-checked", "permuted-order-checked", "earlier-page-reread", "range-over-earlier-page", "huge-page-size"}
 	}
 
 	return d
